@@ -13,10 +13,15 @@ import (
 
 // scripted liveness tester whose probe is a scheduling point (the window
 // between "tracked" and "validated")
-type verifYieldLiveness struct{ verifLiveness }
+type verifYieldLiveness struct {
+	verifLiveness
+	noYield bool
+}
 
 func (l *verifYieldLiveness) PhantomIsLive(addr string, port uint16) (bool, error) {
-	verifnd.Yield()
+	if !l.noYield {
+		verifnd.Yield()
+	}
 	return false, nil
 }
 
@@ -44,7 +49,9 @@ func VerifC09IngestRace() {
 	if scenario == 2 && !verifnd.Thorough() {
 		return // bound (quick): two workers with the sweeper are explored in the thorough tier
 	}
-	lt := &verifYieldLiveness{}
+	// bound: with three threads (two workers and the sweeper) interleavings are explored at the
+	// registry lock only, not at the probe as well (435 000 paths in 40 minutes were not enough)
+	lt := &verifYieldLiveness{noYield: scenario == 2}
 	var ann []verifAnnouncement
 	var newAnn int32
 	rm := verifManager(&lt.verifLiveness, &ann)
@@ -118,6 +125,7 @@ func VerifC09IngestRace() {
 // input then idle or still busy: HandleRegUpdates returns after the stop
 // request in both situations, every received message is counted, and messages
 // that find no free worker are dropped and counted instead of blocking.
+// verif:replay=native-then-model
 // verif:shards=4
 func VerifC09Pipeline() {
 	k := verifnd.Choose("case", 4) // sharded: messages before the stop x input idle/busy afterwards
@@ -131,7 +139,9 @@ func VerifC09Pipeline() {
 	rm := verifManager(lt, &ann)
 	verifnd.FirstTouchReduction()
 	rm.IngestWorkerCount = 1
-	if verifnd.Thorough() {
+	if verifnd.Thorough() && !(busyAfter && before == 1) {
+		// (bound: a message before the stop AND a busy input afterwards with two workers did
+		// not finish in 40 minutes - 2.8 million paths; that case keeps one worker)
 		rm.IngestWorkerCount = 2
 	}
 	Stat()
